@@ -3,6 +3,7 @@ probables.hashes run once over wide bit-vector proxies; every obligation is a cl
 from .. import env
 
 PROPERTY = "C18"
+CROSS_CHECK = True      # thorough: dumped assertion queries are re-decided by z3 4.8.12 and cvc5 1.0
 LEVEL = "proof"
 TECHNIQUE = "symbolic execution of the real hash functions over 136-bit bit-vectors with no-overflow side obligations; QF_BV equivalence against the published FNV-1a written as 64/32-bit arithmetic (z3)"
 STUBS = ["hashes.ord -> code point of a symbolic character", "hashes.md5 / hashes.sha256 -> pure stub returning 16/32 symbolic digest bytes per distinct input",
